@@ -190,6 +190,7 @@ type mQuery struct {
 	proto  int  // 1 tcp, 2 udp
 	port   int
 	call   int // engine harnesses: 0 TCP, 1 UDP, 2 CheckUDP
+	rerr   int // the resolver stage reported an error (1 total, 2/3 one family); the addresses above are what it still delivered
 }
 
 // normName is the documented host-name normalisation: case-insensitive, trailing dots ignored.
@@ -515,6 +516,16 @@ func buildQuery(op hysim.Op, ncall int) mQuery {
 		}
 	}
 	q.rep16 = op.Arg(8)&1 == 1
+	if hk == 0 {
+		switch (op.Arg(8) >> 1) & 3 {
+		case 1: // lookup failed altogether
+			q.rerr, q.v4, q.v6 = 1, netip.Addr{}, netip.Addr{}
+		case 2: // AAAA lookup failed, A succeeded (if there is one)
+			q.rerr, q.v6 = 2, netip.Addr{}
+		case 3: // A lookup failed
+			q.rerr, q.v4 = 3, netip.Addr{}
+		}
+	}
 	q.proto = 1 // any value but 2 means tcp
 	if op.Arg(9) == 2 {
 		q.proto = 2
@@ -772,6 +783,11 @@ func genACL(r *hysim.Rand, tier string, mode int) *hysim.Script {
 			a[5] = int64(r.Intn(3))
 			a[6] = int64(r.Pick(0, 1, 1, 2))
 			a[8] = int64(r.Intn(2))
+		}
+		if r.Chance(1, 6) {
+			// the resolver stage in front of the ACL failed, completely (no address) or for one
+			// address family only: the rules that need no address still decide
+			a[8] = a[8]&1 | int64(r.Range(1, 3))<<1
 		}
 		sc.Ops = append(sc.Ops, hysim.Op{K: "q", A: a})
 	}
@@ -1048,6 +1064,7 @@ type fakeOB struct {
 }
 
 var errFakeDenied = fmt.Errorf("fake outbound: destination denied")
+var errResolverFailed = fmt.Errorf("fake resolver: lookup failed")
 
 func (f *fakeOB) note(meth string, a *AddrEx, err error) {
 	if _, dup := f.w.calls[a]; dup {
@@ -1163,6 +1180,12 @@ func (q *mQuery) addrEx() *AddrEx {
 	a := &AddrEx{Host: q.name, Port: uint16(q.port)}
 	if q.v4.IsValid() || q.v6.IsValid() {
 		a.ResolveInfo = &ResolveInfo{IPv4: q.ip4(), IPv6: q.ip6()}
+	}
+	if q.rerr != 0 {
+		if a.ResolveInfo == nil {
+			a.ResolveInfo = &ResolveInfo{}
+		}
+		a.ResolveInfo.Err = errResolverFailed
 	}
 	return a
 }
